@@ -264,9 +264,20 @@ async fn scenario(case: &Value) -> Value {
     for (_, (_, h)) in late {
         h.abort();
     }
+    // the whole log in file order, reduced to what the life-cycle state machines need (C07 on arbitrary histories)
+    let order: Vec<Value> = log_raw
+        .iter()
+        .map(|f| {
+            let sid = f.get("stream_id").and_then(|x| x.as_str()).or_else(|| f["session_id"].as_str()).unwrap_or("");
+            json!({"sid": sid, "kind": f.get("stream_kind").cloned().unwrap_or(Value::Null), "type": f["type"], "seq": f["seq"],
+                   "r": f.get("run_session_id").cloned().unwrap_or(Value::Null),
+                   "m": if f["type"] == "continuity_message_appended" { f["id"].clone() } else { f.get("message_id").cloned().unwrap_or(Value::Null) },
+                   "j": f.get("job_id").cloned().unwrap_or(Value::Null)})
+        })
+        .collect();
     let foreign = log_raw.iter().filter(|f| !kinds.contains_key(f["stream_id"].as_str().unwrap_or(""))).count();
     let _ = std::fs::remove_dir_all(&root);
-    json!({"id": case["id"], "streams": streams, "notes": notes, "log_frames": log_raw.len(), "frames_of_other_streams": foreign})
+    json!({"id": case["id"], "streams": streams, "notes": notes, "log_frames": log_raw.len(), "frames_of_other_streams": foreign, "order": order})
 }
 
 pub fn engine_fidelity(rt: &tokio::runtime::Runtime, cases: Vec<Value>, out: &mut NdjsonOut) {
